@@ -282,6 +282,34 @@ def run_programs(ctx, run, prop, rp, tis):
             return res.get_alloc(), {k: res.get_coverage(k) for k in ("capacity", "eligible", "fraction", "number")}
 
     rep_alloc, rep_cov = impl_call("Result.get_alloc/get_coverage", _reports)
+    # "reports match the run": the finished result describes the run that produced it, whatever the caller does afterwards with the objects it passed in
+    # (the usual scenario loop edits one ProgramInstructions / ProgramSet in place for the next run)
+    ci, cp = getattr(run, "caller_instr", None), getattr(run, "caller_progset", None)
+    if prop == "C13" and ci is not None and not getattr(run, "caller_edited", False):
+        run.caller_edited = True
+        try:
+            for ts in list(ci.alloc.values()) + list(ci.capacity.values()) + list(ci.coverage.values()):
+                ts.vals = [float(v) * 3.0 + 7.0 for v in ts.vals]
+                if ts.assumption is not None:
+                    ts.assumption = float(ts.assumption) * 3.0 + 7.0
+            ci.start_year = float(ci.start_year) + 1.0
+            if cp is not None:
+                for prog in cp.programs.values():
+                    prog.unit_cost.vals = [float(v) * 2.0 for v in prog.unit_cost.vals]
+                    if prog.unit_cost.assumption is not None:
+                        prog.unit_cost.assumption = float(prog.unit_cost.assumption) * 2.0
+                    prog.spend_data.vals = [float(v) * 5.0 + 1.0 for v in prog.spend_data.vals]
+                    if prog.spend_data.assumption is not None:
+                        prog.spend_data.assumption = float(prog.spend_data.assumption) * 5.0 + 1.0
+        except Exception as e:
+            raise ImplError("caller-edit", e, "")
+        rep_alloc2, rep_cov2 = impl_call("Result.get_alloc/get_coverage", _reports)
+        ctx.count("report.after_caller_edit")
+        def _same(a, b):
+            return set(a) == set(b) and all(np.array_equal(np.asarray(a[k], dtype=float), np.asarray(b[k], dtype=float), equal_nan=True) for k in a)
+        diff = [what for what, a, b in [("get_alloc", rep_alloc, rep_alloc2)] + [(f"get_coverage({k!r})", rep_cov[k], rep_cov2[k]) for k in rep_cov] if not _same(a, b)]
+        if diff:
+            ctx.violation({"api": "Result.get_coverage", "law": "report_after_caller_edit"}, f"{run.label}: after the caller edited the ProgramInstructions / ProgramSet objects it had passed to the run, the finished result reports different {', '.join(diff)} (the result must describe the run that produced it)", dict(rp))
 
     def _equiv():
         with np.errstate(all="ignore"):
@@ -920,6 +948,7 @@ def check_run(ctx, prop, build, label, rp, max_ti=None):
     run.label = label
     m = impl_call("Model()", lambda: Model(settings, fw, parset, progset, instr), refusals)
     run.m, run.fw, run.parset = m, fw, parset
+    run.caller_instr, run.caller_progset = instr, progset
     run.outcome_calls, run.cov_calls, run.n_outcome_calls, run.pre_popsize = {}, {}, {}, {}
     observe_preflush(m, run.pre_popsize)
     ps = m.progset
